@@ -1506,5 +1506,52 @@ C08_V0_STEP = dict(
           "old_value": "qnum", "resid1": _QV, "resid2": _QV, "resid": _QV, "idx": _NV, "N": "Z", "mean": "qnum"},
     prims=_C08_BLOCK_PRIMS, assign_effects=[_store("V0"), _MU_IADD_SCALAR],
 )
-C08_ALL = [C08_N_OBS, C08_GET, C08_MCMC_STEP, C08_ALPHA, C08_PREC_OBS, C08_PREC_W0, C08_W0_STEP, C08_V0_STEP]
+# the horseshoe precision steps: vectorised gamma draws, clipping
+_C08_VEC2 = [      # scalar op array, array * array, arrays of square roots, the counts N1 / N2
+    ("__x + __a", "np_sadd {x} {a}", _QV, {"x": "qnum", "a": _QV}), ("__x * __a", "np_smul {x} {a}", _QV, {"x": "qnum", "a": _QV}),
+    ("__x / __a", "np_sdiv {x} {a}", _QV, {"x": "qnum", "a": _QV}), ("__a * __b", "np_vmul {a} {b}", _QV, {"a": _QV, "b": _QV}),
+    ("np.sqrt(__a)", "map Sqrt {a}", "list ssqrt", {"a": _QV}), ("1.0 / __r", "map inv_sqrt {r}", "list isqrt", {"r": "list ssqrt"}),
+    ("np.clip(__a, __lo, __hi)", "np_clip_isq_each orc {a} {lo} {hi}", _QV, {"a": _QV, "lo": "list isqrt", "hi": "qnum"}),
+    ("np.clip(__a, __lo, __hi)", "np_clip_isq_all orc {a} {lo} {hi}", _QV, {"a": _QV, "lo": "isqrt", "hi": "qnum"}),
+    ("np.random.gamma(__a, __s)", "!draw_gamma_vec {a} {s}", _QV, {"a": "qnum", "s": _QV}),
+    ("range(__n)", "zrange {n}", _ZV, {"n": "Z"}), ("np.array(__l)", "{l}", _ZV, {"l": _ZV}),
+]
+_HS_PRIMS = [("self.local_shrinkage", "local_shrinkage", "bool")] + _C08_SELF + _C08_SCALAR + _C08_SQRT + _C08_DRAWS + _C08_VEC + _C08_VEC2
+_HS_PARAMS = [("g", "cfg"), ("d", "data"), ("orc", "oracle"), ("local_shrinkage", "bool"), ("self", "st")]
+C08_PREC_V0 = dict(
+    _STMETHOD, func="_prec_V0_step", name="src_prec_V0_step", params=_HS_PARAMS,
+    vars={"phiaux0": _QV, "bn": "list qnum | qnum", "N1": _ZV, "N2": _ZV, "C": "list isqrt | isqrt", "an": "qnum", "etaaux0": "qnum"},
+    prims=_HS_PRIMS,
+)
+_C08_MAT = [       # matrices as lists of rows: scalar op matrix, row vector * matrix (broadcast over the rows), matrix op matrix
+    ("__x + __a", "map (np_sadd {x}) {a}", _QM, {"x": "qnum", "a": _QM}), ("__x / __a", "map (np_sdiv {x}) {a}", _QM, {"x": "qnum", "a": _QM}),
+    ("__v * __a", "map (np_vmul {v}) {a}", _QM, {"v": _QV, "a": _QM}), ("__a ** 2", "map np_square {a}", _QM, {"a": _QM}),
+    ("__a + __b", "zipw np_vadd {a} {b}", _QM, {"a": _QM, "b": _QM}), ("__a * __b", "zipw np_vmul {a} {b}", _QM, {"a": _QM, "b": _QM}),
+    ("__a + __x", "map (fun r__ => np_vadds r__ {x}) {a}", _QM, {"a": _QM, "x": "qnum"}),
+    ("__a.sum(0)", "np_colsum (c_D g) {a}", _QV, {"a": _QM}),                       # the sampler's matrices have self.D columns
+    ("np.clip(__a, __c[:, None], __hi)", "np_clip_isq_rows orc {a} {c} {hi}", _QM, {"a": _QM, "c": "list isqrt", "hi": "qnum"}),
+    ("np.random.gamma(__a, __s)", "!draw_gamma_mat {a} {s}", _QM, {"a": "qnum", "s": _QM}),
+]
+_hs_vk = lambda k: dict(
+    _STMETHOD, func="_prec_V%s_step" % k, name="src_prec_V%s_step" % k, params=_HS_PARAMS,
+    vars={"phiaux" + k: _QM, "bn": "list list qnum | list qnum", "N1": _ZV, "N2": _ZV, "C": "list isqrt | isqrt", "an": "qnum",
+          "etaaux" + k: _QV},
+    prims=_HS_PRIMS + _C08_MAT)
+C08_PREC_V2, C08_PREC_V1 = _hs_vk("2"), _hs_vk("1")
+# the multiplicative gamma process of the W columns
+C08_PREC_W = dict(
+    _STMETHOD, func="_prec_W_step", name="src_prec_W_step",
+    params=[("g", "cfg"), ("d", "data"), ("orc", "oracle"), ("mult_gamma_proc", "bool"), ("self", "st")],
+    vars={"parssq": _QM, "tmp": _QV, "an": "qnum", "bn": "qnum | list qnum", "d": "Z", "C": "isqrt"},
+    range_like=(),                                             # range(n) / range(a, b) are the prims below
+    prims=[("self.mult_gamma_proc", "mult_gamma_proc", "bool"), ("range(__a, __b)", "zrange2 {a} {b}", _ZV, {"a": "Z", "b": "Z"}),
+           ("np.cumprod(__a)", "cumprod {a}", _QV, {"a": _QV}), ("__a / __x", "np_vdivs {a} {x}", _QV, {"a": _QV, "x": "qnum"}),
+           ("__a[__i:]", "np_from {a} {i}", _QV, {"a": _QV, "i": "Z"}),
+           ("__a[:, __i:]", "map (fun r__ => np_from r__ {i}) {a}", _QM, {"a": _QM, "i": "Z"}),
+           ("__a.sum()", "np_msum {a}", "qnum", {"a": _QM})]
+          + _C08_SELF + _C08_SCALAR + _C08_SQRT + _C08_DRAWS + _C08_VEC + _C08_VEC2 + _C08_MAT,
+    assign_effects=[_store("gam")],
+)
+C08_ALL = [C08_N_OBS, C08_GET, C08_MCMC_STEP, C08_ALPHA, C08_PREC_OBS, C08_PREC_W0, C08_W0_STEP, C08_V0_STEP, C08_PREC_V0,
+           C08_PREC_V2, C08_PREC_V1, C08_PREC_W]
 ALL += C08_ALL
